@@ -18,7 +18,7 @@ DESC = {
     'C10': 'tee (2-3 forks, window 2-3, lengths 0/1/3/5, failure positions)',
     'C11': 'startup (incl. 3 workers), cycles (incl. abandoned stream closed after exit, batching worker with requests in flight), acycles (AsyncServer), pstartup, pcycles (simproc; two competing workers per stage)',
     'C12': 'thread, process (simproc; kill at every child point; terminate(); refused restart) + 5 real twins',
-    'C13': 'histories (BFS on real processes: list / MemoryBlock / managed() value; 12 operations), server_races (real Server object under the thread scheduler)',
+    'C13': 'histories (BFS on real processes: list / MemoryBlock / managed() value / list whose container lives in a second manager; 12 operations), server_races (real Server object under the thread scheduler)',
     'C14': 'sequences on real processes (depth 2-3 x issuer vectors; 32 list ops, 21 dict ops, ...), scenarios (custom authkey, managed() in a constructor)',
     'C15': 'hops (9 classes x 3 depths x <= 3 hops x modes x 7 nestings) + 9 real-process cases',
     'C16': 'afifo (every duration vector, n <= 4, both async variants), aserver, hybrids, opaque (adapters carry opaque elements)',
